@@ -17,7 +17,7 @@ from fractions import Fraction
 import common as C
 
 ID = "C11"
-COQ_TARGETS = ["Properties/C11.vo"]
+COQ_TARGETS = ["Properties/C11.vo", "GenFacts/LexerSrcFacts.vo"]
 MODEL_TARGETS = ["Model/Lexer.vo"]
 IMPORTS = ("From Coq Require Import NArith List.\nFrom Ka Require Import Model.Lexer.\n"
            "Import ListNotations.\nOpen Scope string_scope.\nOpen Scope N_scope.\n")
@@ -81,6 +81,8 @@ def impl_line(s, T):
     try:
         toks = T.tokenise(s)
     except (T.UnknownTokenError, T.BadNumberError, T.UnclosedStringError, T.UnclosedInstantError) as e:
+        if type(e.index) is not int:      # the reported position must be an index of the input
+            return "E %s ?%s" % (ERR_SHORT[type(e).__name__], type(e.index).__name__), None, e
         return "E %s %d" % (ERR_SHORT[type(e).__name__], e.index), None, e
     except C.CaseTimeout:
         raise
@@ -257,6 +259,11 @@ def relations(s, toks, exc, T, ws_choices):
             bad.append((dict(kind="range-lex"), "%r must lex as number, range%s; got %r" % (s, ", number" if b else "", got if got is not None else type(exc).__name__)))
             return bad
     if exc is not None:
+        if isinstance(exc, (T.UnknownTokenError, T.BadNumberError, T.UnclosedStringError, T.UnclosedInstantError)) \
+                and type(exc.index) is not int:
+            bad.append((dict(kind="error-position", what=type(exc).__name__ + ":not-an-index"),
+                        "%s carries %r, which is not a position of the input" % (type(exc).__name__, exc.index)))
+            return bad
         if isinstance(exc, T.UnclosedStringError):
             i = exc.index
             if not (0 <= i < len(s) and s[i] == "\"" and unclosed_ref(s, i)):
